@@ -107,9 +107,246 @@ def k3b_crc_vectors(src):
     src.check(crc(data) == want, f"crc32c known-answer vector {i} mismatch")
 
 
+# ------------------------------------------------------------------------------------------
+# D1-D3: builders / readers / splitter against the independent reference codec (specs/refcodec.py)
+
+from specs import refcodec as REF  # noqa: E402
+from . import cext as CX  # noqa: E402
+from aiokafka.record.default_records import _DefaultRecordBatchBuilderPy, _DefaultRecordBatchPy  # noqa: E402
+from aiokafka.record.legacy_records import _LegacyRecordBatchBuilderPy, _LegacyRecordBatchPy  # noqa: E402
+from aiokafka.record.memory_records import _MemoryRecordsPy  # noqa: E402
+
+KEYS = [None, b"", b"k", b"K" * 63, b"K" * 64]
+VALUES = [None, b"", b"v", b"V" * 200, bytes((i * 37 + 11) % 251 for i in range(43))]
+HEADERS = [[], [("h", None)], [("hé", b"x"), ("z", b"")]]
+TIMESTAMPS = [[1000, 1001, 1002], [5000, 10, 4999], [0, 2 ** 40, 1], [7, 7, 7]]
+
+
+def _compiled():
+    try:
+        from aiokafka.record._crecords import (DefaultRecordBatch as CB, DefaultRecordBatchBuilder as CBB,
+                                               LegacyRecordBatchBuilder as CLB, MemoryRecords as CMR)
+        return CB, CBB, CLB, CMR
+    except Exception:  # noqa: BLE001
+        return None
+
+
+def _lib_decode(cls, raw):
+    out = []
+    recs = cls(bytes(raw))
+    while recs.has_next():
+        b = recs.next_batch()
+        ok = b.validate_crc()
+        out.append((b, ok, [(r.offset, r.timestamp, r.key, r.value, list(getattr(r, "headers", []) or [])) for r in b]))
+    return out
+
+
+def d1_v2_builder(src):
+    n = 1 + src.choice("records", 3)
+    ts = TIMESTAMPS[src.choice("timestamps", len(TIMESTAMPS))]
+    codec = src.choice("gzip", 2)
+    txn = src.flag("transactional")
+    recs = []
+    for i in range(n):
+        recs.append(dict(offset=i, timestamp=ts[i], key=KEYS[src.choice(f"key{i}", len(KEYS))],
+                         value=VALUES[src.choice(f"value{i}", len(VALUES))],
+                         headers=HEADERS[src.choice(f"headers{i}", len(HEADERS))] if i == 0 else []))
+    # batch-size limit: generous, or exactly at / just below the size needed for the first k records
+    sizes = [len(REF.encode_v2(0, recs[:k])) for k in range(1, n + 1)]
+    lim_kind = src.choice("batch_size", 4)
+    batch_size = [1 << 20, sizes[-1], sizes[-1] - 1, sizes[0]][lim_kind]
+    pid, epoch, seq = [(-1, -1, -1), (2 ** 63 - 1, 2 ** 15 - 1, 2 ** 31 - 1)][src.choice("producer_extremes", 2)]
+    b = _DefaultRecordBatchBuilderPy(2, codec, is_transactional=txn, producer_id=pid, producer_epoch=epoch,
+                                     base_sequence=seq, batch_size=batch_size)
+    accepted = []
+    for i, r in enumerate(recs):
+        md = b.append(r["offset"], r["timestamp"], key=r["key"], value=r["value"], headers=r["headers"])
+        # independent statement of the limit: a record is refused iff the uncompressed batch would exceed
+        # batch_size and it is not the first record
+        would = len(REF.encode_v2(0, accepted + [r]))
+        want_accept = (not accepted) or would <= batch_size
+        src.check((md is not None) == want_accept,
+                  "append() accept/refuse decision disagrees with the encoded size vs batch_size",
+                  record=i, would_be=would, batch_size=batch_size)
+        if md is not None:
+            accepted.append(r)
+            src.check(b.size() == would, "size() disagrees with the bytes an independent encoder produces", got=b.size(), want=would)
+    raw = bytes(b.build())
+    d = REF.decode_v2(raw)
+    info = dict(records=len(recs), accepted=len(accepted), gzip=codec, batch_size=batch_size)
+    src.check(d["crc_ok"], "CRC field is not crc32c(attributes..end)", **info)
+    src.check(d["length"] == len(raw) - 12, "batch length field != bytes after it", **info)
+    src.check(d["count"] == len(accepted) and len(d["records"]) == len(accepted), "record count field != records in the batch", **info)
+    src.check(d["last_offset_delta"] == accepted[-1]["offset"], "last offset delta != offset of the last record in the batch", **info)
+    src.check(d["first_timestamp"] == accepted[0]["timestamp"], "first timestamp != timestamp of the first record", **info)
+    want_max = max(r["timestamp"] for r in accepted) + (1 if src.twin else 0)
+    src.check(d["max_timestamp"] == want_max, "max timestamp != maximum over the records in the batch",
+              got=d["max_timestamp"], want=want_max, **info)
+    src.check((d["producer_id"], d["producer_epoch"], d["base_sequence"]) == (pid, epoch, seq), "producer fields not preserved", **info)
+    src.check(d["transactional"] == txn and not d["control"], "attribute flags wrong", **info)
+    want_recs = [(r["offset"], r["timestamp"], r["key"], r["value"], r["headers"]) for r in accepted]
+    got = [(r["offset"], r["timestamp"], r["key"], r["value"], r["headers"]) for r in d["records"]]
+    src.check(got == want_recs, "reference decoder reads different records than were appended", **info)
+    # library reader on library bytes and on reference bytes
+    for label, data in (("library bytes", raw), ("reference bytes", REF.encode_v2(0, accepted, transactional=txn, producer_id=pid,
+                                                                               producer_epoch=epoch, base_sequence=seq, codec=codec))):
+        dec = _lib_decode(_MemoryRecordsPy, data)
+        src.check(len(dec) == 1 and dec[0][1] and dec[0][2] == want_recs, f"pure-Python reader on {label}: records differ or CRC invalid", **info)
+    if CX.available():
+        # compiled codec, built from the current .pyx sources, driven in a watchdog subprocess
+        got = _cx_decode(src, raw, "pure-Python builder's bytes", info)
+        if got is not None:
+            src.check(got == [(True, want_recs)], "compiled reader decodes the pure-Python builder's bytes differently", got=str(got)[:200], **info)
+        r = CX.call({"op": "build_v2", "codec": codec, "txn": int(txn), "pid": pid, "epoch": epoch, "seq": seq, "batch_size": batch_size,
+                     "records": [dict(offset=x["offset"], timestamp=x["timestamp"], key=CX.hx(x["key"]), value=CX.hx(x["value"]),
+                                      headers=[[k, CX.hx(v)] for k, v in x["headers"]]) for x in recs]})
+        src.check("exc" not in r and "hang" not in r and "crash" not in r, "compiled v2 builder failed: " + str(r)[:120], **info)
+        if "data" in r:
+            cacc = [x for x, ok in zip(recs, r["accepted"]) if ok]
+            cwant = [(x["offset"], x["timestamp"], x["key"], x["value"], x["headers"]) for x in cacc]
+            craw = bytes.fromhex(r["data"])
+            # (the two builders may differ on a record that fits the limit exactly; each must be
+            #  self-consistent and every reader must agree on the bytes of either)
+            src.check(len(craw) <= max(batch_size, len(REF.encode_v2(0, recs[:1]))) or codec != 0,
+                      "compiled builder produced a batch larger than batch_size", **info)
+            if len(cacc) == len(accepted) and codec == 0:
+                src.check(craw == raw, "compiled and pure-Python builders produce different bytes for the same records", **info)
+            dec = _lib_decode(_MemoryRecordsPy, craw)
+            src.check(len(dec) == 1 and dec[0][1] and dec[0][2] == cwant, "pure-Python reader decodes the compiled builder's bytes differently", **info)
+            d2 = REF.decode_v2(craw)
+            src.check(d2["crc_ok"] and d2["max_timestamp"] == max(x["timestamp"] for x in cacc) and d2["count"] == len(cacc),
+                      "compiled builder: header fields (CRC / max timestamp / count) do not describe the batch", **info)
+
+
+def _cx_decode(src, raw, what, info):
+    r = CX.decode(raw)
+    if "hang" in r:
+        src.check(False, f"compiled decoder does not terminate on {what}", **info)
+        return None
+    if "crash" in r:
+        src.check(False, f"compiled decoder crashed the interpreter on {what} (exit {r['crash']})", **info)
+        return None
+    if "exc" in r:
+        src.check(False, f"compiled decoder raised {r['exc']} on {what}", detail=r.get("msg"), **info)
+        return None
+    out = []
+    for b in r["batches"]:
+        out.append((b["crc"], [(o, t, None if k is None else bytes.fromhex(k), None if v is None else bytes.fromhex(v),
+                                [(hk, None if hv is None else bytes.fromhex(hv)) for hk, hv in hs]) for o, t, k, v, hs in b["records"]]))
+    return out
+
+
+def d2_legacy_builder(src, magic):
+    n = 1 + src.choice("records", 3)
+    comp = src.choice("gzip", 2)
+    recs = []
+    for i in range(n):
+        recs.append(dict(offset=i, timestamp=[5, 9, 7][i], key=KEYS[src.choice(f"key{i}", 4)],
+                         value=VALUES[src.choice(f"value{i}", len(VALUES))]))
+    b = _LegacyRecordBatchBuilderPy(magic, comp, 1 << 20)
+    for r in recs:
+        md = b.append(r["offset"], timestamp=r["timestamp"], key=r["key"], value=r["value"])
+        src.check(md is not None, "legacy builder refused a record far below the batch size")
+    info = dict(magic=magic, gzip=comp, records=n)
+    try:
+        raw = bytes(b.build())
+    except Exception as e:  # noqa: BLE001
+        src.check(False, f"legacy builder build() raised {type(e).__name__}", **info)
+        return
+    got = REF.decode_legacy_set(raw)
+    want = [(r["offset"], r["key"], r["value"], r["timestamp"] if magic == 1 else -1) for r in recs]
+    if comp and magic == 1 and len(recs) > 0:
+        # producer-side wrapper: offset 0.. relative; the reference reader rebases on the wrapper offset
+        base = got[0]["offset"]
+        g = [(x["offset"] - base, x["key"], x["value"], x["timestamp"]) for x in got]
+    else:
+        g = [(x["offset"], x["key"], x["value"], x["timestamp"]) for x in got]
+    if src.twin:
+        want = want[:-1]
+    src.check(g == want and all(x["crc_ok"] for x in got), "reference decoder reads different records / bad CRC from the legacy builder's bytes",
+              got=str(g)[:200], **info)
+    dec = _lib_decode(_MemoryRecordsPy, raw)
+    flat = [(o, k, v) for (_, ok, rs) in dec for (o, t, k, v, h) in rs]
+    src.check(all(ok for _, ok, _ in dec), "pure-Python legacy reader reports an invalid CRC on the builder's own bytes", **info)
+    src.check([(k, v) for (_, k, v) in flat] == [(r["key"], r["value"]) for r in recs], "pure-Python legacy reader round trip differs", **info)
+
+
+def d3_concat(src):
+    """any concatenation of valid batches of mixed formats decodes batch by batch; a trailing partial
+    batch is ignored"""
+    def mk(kind, base):
+        recs = [dict(offset=base, timestamp=5, key=b"a%d" % base, value=b"b", headers=[]),
+                dict(offset=base + 1, timestamp=6, key=None, value=b"c", headers=[])]
+        if kind == "v2":
+            return REF.encode_v2(base, recs), recs
+        if kind == "v2gz":
+            return REF.encode_v2(base, recs, codec=1), recs
+        m = int(kind[1])
+        return REF.encode_legacy(m, recs, compressed=kind.endswith("gz")), recs
+    kinds = ["v0", "v1", "v2", "v1gz", "v0gz", "v2gz"]
+    n = 2 + src.choice("batches", 2)
+    chosen = [kinds[src.choice(f"kind{i}", len(kinds))] for i in range(n)]
+    raw = b""
+    want = []
+    for i, k in enumerate(chosen):
+        data, recs = mk(k, 10 * i)
+        raw += data
+        want += [(r["offset"], r["key"], r["value"]) for r in recs]
+    tail, _ = mk(kinds[src.choice("tail_kind", len(kinds))], 90)
+    cut = [0, 5, 12, 17, len(tail) - 1][src.choice("tail_cut", 5)]
+    raw += tail[:cut]
+    info = dict(kinds=chosen, tail_bytes=cut)
+    # expected: what the reference splitter + reference decoders read (complete batches only)
+    want = []
+    for magic, a_, b_ in REF.split_batches(raw):
+        if magic >= 2:
+            want += [(r["offset"], r["key"], r["value"]) for r in REF.decode_v2(raw, a_)["records"]]
+        else:
+            want += [(r["offset"], r["key"], r["value"]) for r in REF.decode_legacy_set(raw, a_, b_)]
+    w = want[:-1] if src.twin else want
+    try:
+        dec = _lib_decode(_MemoryRecordsPy, raw)
+        got = [(o, k, v) for (_, ok, rs) in dec for (o, t, k, v, h) in rs]
+        src.check(got == w, "pure-Python codec: concatenated batches of mixed formats do not decode batch by batch", got=str(got)[:160], **info)
+        src.check(all(ok for _, ok, _ in dec), "pure-Python codec: CRC of a valid batch reported invalid", **info)
+    except Exception as e:  # noqa: BLE001
+        src.check(False, f"pure-Python splitter/reader raised {type(e).__name__} on a concatenation of valid batches", **info)
+    if CX.available():
+        r = _cx_decode(src, raw, "a concatenation of valid batches of mixed formats", info)
+        if r is not None:
+            got = [(o, k, v) for (ok, rs) in r for (o, t, k, v, h) in rs]
+            src.check(got == want, "compiled codec: concatenated batches of mixed formats do not decode batch by batch", got=str(got)[:160], **info)
+            src.check(all(ok for ok, _ in r), "compiled codec: CRC of a valid batch reported invalid", **info)
+
+
+def prepare(tier):
+    return CX.prepare()
+
+
+def cleanup():
+    CX.cleanup()
+
+
 def harnesses(tier):
     q = tier == "quick"
     hs = [
+        Harness(name="D1_v2_builder_vs_reference", fn=d1_v2_builder,
+                functions=[_DefaultRecordBatchBuilderPy.append, _DefaultRecordBatchBuilderPy.build, _DefaultRecordBatchBuilderPy.size,
+                           _DefaultRecordBatchPy._read_msg, _DefaultRecordBatchPy.validate_crc], shape="U",
+                symbolic_vars="finite-domain choices: 1-3 records, key/value from a boundary menu (null, empty, 63/64 bytes, incompressible), headers (null value, non-ASCII key), timestamp patterns (decreasing, delta > int32), gzip, transactional, producer id/epoch/sequence extremes, batch_size at/just below the encoded size",
+                bounds={"records": "1..3"}, note="differential against the independent reference codec (concrete enumeration); compiled codec compared when importable",
+                max_seconds=600, max_paths=3000000, twin_max_paths=200),
+        Harness(name="D3_concatenation_mixed_formats", fn=d3_concat,
+                functions=[_MemoryRecordsPy._cache_next, _MemoryRecordsPy.next_batch], shape="U",
+                symbolic_vars="finite-domain choices: 2-3 batches each of v0/v1/v2/gzip wrappers, trailing partial batch of 0/5/12/17/len-1 bytes",
+                bounds={"batches": "2..3"}, max_seconds=300, twin_max_paths=200),
+    ]
+    for m in (0, 1):
+        hs.append(Harness(name=f"D2_legacy_builder_v{m}", fn=d2_legacy_builder, params={"magic": m},
+                          functions=[_LegacyRecordBatchBuilderPy.append, _LegacyRecordBatchBuilderPy.build, _LegacyRecordBatchPy.__iter__],
+                          shape="U", symbolic_vars="finite-domain choices: 1-3 records, key/value menus (incl. a 43-byte incompressible value), gzip or not",
+                          bounds={"records": "1..3"}, max_seconds=300, twin_max_paths=200))
+    hs += [
         Harness(name="K1_varint_roundtrip", fn=k1_varint_roundtrip,
                 functions=[encode_varint_py, decode_varint_py, size_of_varint_py], shape="K",
                 symbolic_vars="v: all of int64 (65-bit vector); one trailing byte",
